@@ -154,6 +154,8 @@ where
                             the_dispatcher.clone(),
                             action_received_at,
                         );
+                        #[cfg(rs_store_verif)]
+                        crate::verif::point("reducer.write");
                         *rx_store.state.lock().unwrap() = new_state.clone();
 
                         // do effects remain
@@ -191,6 +193,8 @@ where
 
             // drop all subscribers
             rx_store.clear_subscribers();
+            #[cfg(rs_store_verif)]
+            crate::verif::leave("reducer.done");
 
             #[cfg(dev)]
             eprintln!("store: reducer thread done");
@@ -222,12 +226,16 @@ where
         subscriber: Arc<dyn Subscriber<State, Action> + Send + Sync>,
     ) -> Box<dyn Subscription> {
         // append a subscriber
+        #[cfg(rs_store_verif)]
+        crate::verif::point("subs.add");
         self.subscribers.lock().unwrap().push(subscriber.clone());
 
         // disposer for the subscriber
         let subscribers = self.subscribers.clone();
         Box::new(SubscriberSubscription {
             unsubscribe: Box::new(move || {
+                #[cfg(rs_store_verif)]
+                crate::verif::point("subs.unsub");
                 let mut subscribers = subscribers.lock().unwrap();
                 subscribers.retain(|s| {
                     let retain = !Arc::ptr_eq(s, &subscriber);
@@ -261,9 +269,13 @@ where
     pub(crate) fn clear_subscribers(&self) {
         #[cfg(dev)]
         eprintln!("store: clear_subscribers");
+        #[cfg(rs_store_verif)]
+        crate::verif::point("reducer.clear");
         match self.subscribers.lock() {
             Ok(mut subscribers) => {
                 for subscriber in subscribers.iter() {
+                    #[cfg(rs_store_verif)]
+                    crate::verif::point("reducer.clear.item");
                     subscriber.on_unsubscribe();
                 }
                 subscribers.clear();
@@ -293,6 +305,8 @@ where
     ) -> (bool, State, Option<Vec<Effect<Action>>>) {
         //let state = self.state.lock().unwrap().clone();
 
+        #[cfg(rs_store_verif)]
+        crate::verif::point("reducer.mws.reduce");
         let mut reduce_action = true;
         if !self.middlewares.lock().unwrap().is_empty() {
             let middleware_start = Instant::now();
@@ -328,6 +342,8 @@ where
 
         let mut effects = vec![];
         let mut need_dispatch = true;
+        #[cfg(rs_store_verif)]
+        crate::verif::point("reducer.red");
         if reduce_action {
             let reducer_start = Instant::now();
 
@@ -370,6 +386,8 @@ where
         effects: &mut Vec<Effect<Action>>,
         dispatcher: Arc<dyn Dispatcher<Action>>,
     ) {
+        #[cfg(rs_store_verif)]
+        crate::verif::point("reducer.mws.effect");
         let effect_start = Instant::now();
         self.metrics.effect_issued(effects.len());
 
@@ -406,6 +424,8 @@ where
 
         let effects_total = effects.len();
         while !effects.is_empty() {
+            #[cfg(rs_store_verif)]
+            crate::verif::point("reducer.spawn");
             let effect = effects.remove(0);
             match effect {
                 Effect::Action(a) => {
@@ -439,6 +459,8 @@ where
         dispatcher: Arc<dyn Dispatcher<Action>>,
         _action_received_at: Instant,
     ) {
+        #[cfg(rs_store_verif)]
+        crate::verif::point("reducer.mws.dispatch");
         let _notify_start = Instant::now();
         self.metrics.state_notified(Some(next_state));
 
@@ -475,8 +497,12 @@ where
         }
 
         if need_notify {
+            #[cfg(rs_store_verif)]
+            crate::verif::point("reducer.snapshot");
             let subscribers = self.subscribers.lock().unwrap().clone();
             for subscriber in subscribers.iter() {
+                #[cfg(rs_store_verif)]
+                crate::verif::point("reducer.notify");
                 subscriber.on_notify(next_state, action);
             }
             let duration = _notify_start.elapsed();
@@ -493,6 +519,8 @@ where
 
     /// close the store
     pub fn close(&self) {
+        #[cfg(rs_store_verif)]
+        crate::verif::point("close.tx");
         if let Some(tx) = self.dispatch_tx.lock().unwrap().take() {
             #[cfg(dev)]
             eprintln!("store: closing dispatch channel");
@@ -516,9 +544,13 @@ where
 
         // Shutdown the thread pool with timeout
         // lock pool
+        #[cfg(rs_store_verif)]
+        crate::verif::point("stop.take");
         let pool_took = self.pool.lock().unwrap().take();
         // unlock pool
         if let Some(pool) = pool_took {
+            #[cfg(rs_store_verif)]
+            crate::verif::point("stop.join");
             if cfg!(dev) {
                 // wait forever
                 pool.shutdown_join();
@@ -539,6 +571,8 @@ where
     /// * Ok(()) : if the action is dispatched
     /// * Err(StoreError) : if the dispatch channel is closed
     pub fn dispatch(&self, action: Action) -> Result<(), StoreError> {
+        #[cfg(rs_store_verif)]
+        crate::verif::point("dispatch.tx");
         let sender = self.dispatch_tx.lock().unwrap();
         if let Some(tx) = sender.as_ref() {
             // the number of remaining actions in the channel
@@ -682,6 +716,8 @@ where
 
         #[cfg(dev)]
         eprintln!("store: {} channel thread done", _name);
+        #[cfg(rs_store_verif)]
+        crate::verif::leave("chan.thread.done");
     }
 }
 
@@ -707,10 +743,14 @@ where
 
     fn clear_resource(&self) {
         // drop channel
+        #[cfg(rs_store_verif)]
+        crate::verif::point("ctx.clear");
         if let Ok(mut tx) = self.tx.lock() {
             drop(tx.take());
         }
         // join the thread
+        #[cfg(rs_store_verif)]
+        crate::verif::point("ch.join");
         if let Ok(mut handle) = self.handle.lock() {
             if let Some(h) = handle.take() {
                 let _ = h.join();
